@@ -1,3 +1,34 @@
-From AV Require Import Deser.Model Deser.Spec Deser.Proofs.
-Theorem C01_placeholder : True. Proof. exact I. Qed.
-Print Assumptions C01_placeholder.
+(* C01 — Deserialization accepts exactly conforming data and builds the typed value.
+   Model: Deser/Model.v (exec, compile); specification: Deser/Spec.v (spec); proofs: Deser/Proofs.v. *)
+From Coq Require Import List String ZArith Bool.
+From AV Require Import Core.Json Core.Errors Deser.Model Deser.Spec Deser.Loops Deser.Proofs Deser.Examples.
+Import ListNotations.
+
+(* For every universe of classes / enums, every option record without coercion (coercion is C14), every type of the
+   modelled grammar at any nesting depth, every root schema and every datum: the compiled method tree and the
+   declarative data model give the same outcome — same accepted value, both reject, or one of them ran out of
+   fuel (fuel is only consumed when a class is unfolded).  In particular the compiled tree never crashes. *)
+Theorem C01_compiled_deserializer_is_the_data_model :
+  forall u o fuel root t d,
+  strict_opts o -> wf_univ u o = true -> wf_ty t = true -> union_order_ok t = true -> wf_data d = true ->
+  agree (deserialize u o fuel root t d) (spec_deserialize u o fuel root t d).
+Proof. exact deserialize_agrees_with_spec. Qed.
+Print Assumptions C01_compiled_deserializer_is_the_data_model.
+
+(* accept <-> conforms, returned value = typed image, rejection <-> non-conformance, no crash *)
+Theorem C01_accepts_exactly_conforming_data :
+  forall u o fuel root t d,
+  strict_opts o -> wf_univ u o = true -> wf_ty t = true -> union_order_ok t = true -> wf_data d = true ->
+  deserialize u o fuel root t d <> RFuel -> spec_deserialize u o fuel root t d <> SFuel ->
+  (forall v, deserialize u o fuel root t d = ROk v <-> spec_deserialize u o fuel root t d = SOk v)
+  /\ ((exists e, deserialize u o fuel root t d = RErr e) <-> spec_deserialize u o fuel root t d = SRej)
+  /\ (forall w, deserialize u o fuel root t d <> RCrash w).
+Proof. exact deserialize_ok_iff. Qed.
+Print Assumptions C01_accepts_exactly_conforming_data.
+
+(* the hypotheses are satisfiable by a non-trivial universe (recursive class, aliases, constraints, unions, enum) *)
+Theorem C01_hypotheses_satisfiable :
+  wf_univ ex_univ ex_opts = true /\ wf_ty ex_ty = true /\ union_order_ok ex_ty = true
+  /\ wf_data ex_good = true /\ wf_data ex_bad = true.
+Proof. exact ex_wf. Qed.
+Print Assumptions C01_hypotheses_satisfiable.
